@@ -29,7 +29,7 @@ class Harness:
         # stubs are not active in native playback; playback is only meaningful there when the
         # harness says so explicitly (all harness-level kani::any() precede the first stub call and
         # the stub over-approximates the real function)
-        self.playback = (not stubs) if playback is None else playback
+        self.playback = (not stubs and not native) if playback is None else playback
         self.expect_fail = list(expect_fail)   # descriptions of panics that MUST be reachable
         self.pbfile = pbfile or mod.split("::")[-1]
         self.native = native          # name of a native confirmer (replay crate) when playback is impossible
